@@ -162,7 +162,7 @@ prop(
 
 prop(
     'C07',
-    ['X4', 'X3a', 'X1', 'X6', 'A3r', 'S6', 'G6', 'G7', 'G3', 'X5', 'N3'],
+    ['X4', 'X3a', 'X1', 'X13', 'X14', 'X6', 'A3r', 'S6', 'G6', 'G7', 'G3', 'X5', 'N3'],
     explanation=(
         'X4: the lark call sits in a try whose handlers cover UnexpectedToken/UnexpectedCharacters, each handler raises '
         'HplSyntaxError built only from attributes every handled exception class defines (read from lark\'s own source); '
@@ -173,6 +173,7 @@ prop(
         'before the literal fast path and its assertions. S6: no abstract stub reachable. X6: no state on the '
         'transformer/parser objects, no module-level mutable state written or handed out. X5: assert census (informational). '
         'Not decided: termination/recursion depth, implicit AttributeError on dynamically typed receivers.'
+        ' X13: no attribute of a narrower node class is read from an un-narrowed value (AttributeError is not a documented failure).'
     ),
 )
 
@@ -242,7 +243,7 @@ prop(
 
 prop(
     'C14',
-    ['X1', 'X2', 'X12', 'X3b', 'X3c', 'X10', 'R10', 'R12', 'S3', 'R2', 'T2', 'X5r', 'T4'],
+    ['X1', 'X2', 'X12', 'X13', 'X14', 'X3b', 'X3c', 'X10', 'R10', 'R12', 'S3', 'R2', 'T2', 'X5r', 'T4'],
     explanation=(
         'X1 definite assignment over all 614 functions; X2 call.arguments[k] vs the smallest overload of the function the '
         'branch dispatches on; X3b explicit raises of rewrite.py are the documented ones; X5r assert census of everything '
@@ -255,6 +256,7 @@ prop(
         'type out; a wrongly typed fold makes the rebuilt parent raise); R12 the simplifier does not assert the literal-last normal form for non-commutative operators (`(1 - x) = 1` raised AssertionError). Not decided: TypeError from re-validation of operand types (assumed), '
         'the remaining shape assertions.'
         ' X12: no function with a declared (non-Optional) result falls off the end of its body.'
+        ' X13: an attribute that only some node classes have is read only where the path (or the earlier operands of the same boolean expression) has narrowed the value to classes that all have it - by is_<kind> flags (kind table), isinstance tests / asserts, arity and operator tests; otherwise a valid input of another kind raises AttributeError (614 functions, no hit on the current tree). X14: every kind assertion (assert isinstance(x, C), assert x.is_<kind>) is implied by the kind tests the path has made on x, so it cannot fail on a well-formed input.'
     ),
 )
 
@@ -315,6 +317,7 @@ prop(
         'predicates and expressions to the splitter without shortcuts (a vacuous contradiction must reach the ValueError). X3b: documented raises only. S3: the '
         'contains_reference queries that decide the side conditions cover every slot. Not decided: shapes outside the table '
         '(returned unchanged).'
+        ' V3: the kind flags the split rules branch on equal the reference table.'
     ),
     assumptions=['monadic first-order formulas with <= 3 predicates: domain sizes 0..3 exhaust the relevant models for these schemas (one quantifier, emptiness test)'],
 )
@@ -329,12 +332,13 @@ prop(
         'mentions the bound variable, is found); f1 consists only of parts whose contains_reference(alias) flag is false on '
         'that path; delegations to sibling helpers pass an equivalent formula; alias absent -> (input itself, True). S3: '
         'contains_reference covers every slot of every class.'
+        ' V3: the kind flags the split rules branch on equal the reference table.'
     ),
 )
 
 prop(
     'C13',
-    ['R3', 'R5', 'R5b', 'V1', 'V3', 'S4', 'S3', 'X12'],
+    ['R3', 'R5', 'R5b', 'V1', 'V3', 'S4', 'S3', 'X12', 'X13'],
     explanation=(
         'R3: negate/join of the three predicate classes against the combinator table (~T=F, ~F=T, ~~p=p only under a "not" '
         'guard, ~p=Not(p); T&q=q, F&q=F, p&T=p, p&F=F, p&q=And(p,q)); predicate_from_expression maps literal conditions to '
@@ -344,5 +348,6 @@ prop(
         'only when ALL slots are unchanged, rebuilt with but(). Not decided: capture by quantifiers (excluded by the '
         'statement).'
         ' R5b: substitutions are carried through predicates, simple events and event disjunctions with but(<child>=<child>.<same method>(same arguments in order)), identity only when every child came back unchanged; the vacuous predicates answer with themselves. V1: the constants the combinators read (is_vacuous, is_true, condition literal).'
+        ' X13: the combinators read .operator / .operand only under a kind test.'
     ),
 )
